@@ -44,7 +44,7 @@ RULE = ('histories of object creation, sets, in-place mutations, per-instance Pa
         'both graphs at copy time and after every later operation, invocation logs with the side of every invoked object, '
         'and the same copy-side operations on a twin of the original. non-trivial = the copy succeeded, >=2 post operations, '
         'at least one watcher in the copied graph; distinct = distinct canonical case')
-COVERAGE_TARGETS = ['copy:ok', 'root:Root3', 'pre:depth2-dependency-wired', 'post:update-batch', 'pre:multi-name-watcher', 'post:replace-leaf-on-copy', 'post:replace-mid-on-copy', 'pre:slot-watcher', 'pre:partial-watcher', 'pre:slots-attribute', 'post:pedit-bounds-with-slot-watcher', 'selector:set-after-copy', 'selector:named-after-copy', 'selector:own-copy-before-copy', 'mech:deepcopy', 'mech:pickle2', 'mech:pickle3', 'mech:pickle4', 'mech:pickle5',
+COVERAGE_TARGETS = ['copy:ok', 'pre:duplicate-watcher', 'pre:same-class-cross-watcher', 'root:Root3', 'pre:depth2-dependency-wired', 'post:update-batch', 'pre:multi-name-watcher', 'post:replace-leaf-on-copy', 'post:replace-mid-on-copy', 'pre:slot-watcher', 'pre:partial-watcher', 'pre:slots-attribute', 'post:pedit-bounds-with-slot-watcher', 'selector:set-after-copy', 'selector:named-after-copy', 'selector:own-copy-before-copy', 'mech:deepcopy', 'mech:pickle2', 'mech:pickle3', 'mech:pickle4', 'mech:pickle5',
                     'root:Top', 'root:Plain', 'root:Sub', 'pre:sub-attached-with-dependency', 'pre:sub-attached-no-dependency',
                     'pre:detached-again', 'pre:pedit', 'pre:attr', 'pre:explicit-watcher', 'pre:cross-object-watcher',
                     'post:orig', 'post:copy', 'post:attach-new-sub', 'post:log-nonempty']
@@ -654,6 +654,12 @@ def directed():
                     ('copy', update(CP(), x=8, y=7))])
         yield case([new(SUB, x=1), new(TOP, a=R(H(0)), b=R(H(0))), watch(H(0), ['x', 'y'], H(1))], H(1), mech,
                    [('copy', update(CP('a'), x=3, y=4)), ('orig', update(H(0), x=5, y=6)), ('copy', update(CP(), n=7))])
+        # the same callback registered twice: two watcher objects, both run — also in a batch, also on the copy
+        yield case([new(SUB, x=1), watch(H(0), ['x'], H(0)), watch(H(0), ['x'], H(0)), watch(H(0), ['x', 'y'], H(0)), watch(H(0), ['x', 'y'], H(0))], H(0), mech,
+                   [('copy', update(CP(), x=3, y=4)), ('orig', update(H(0), x=5, y=6)), ('copy', set_(CP(), 'x', 8))])
+        # an object watched by a method of ANOTHER object of the same class
+        yield case([new(SUB, x=1), new(SUB, x=2), watch(H(0), ['x'], H(1)), watchp(H(0), 'y', H(1)), new(TOP, a=R(H(0)), b=R(H(1)))], H(2), mech,
+                   [('copy', set_(CP('a'), 'x', 5)), ('orig', set_(H(0), 'x', 6)), ('copy', set_(CP('a'), 'y', 7)), ('copy', update(CP('a'), x=1, y=2))])
         # (g) a dependency path through two sub-objects: replacing the leaf / the middle object on the copy rebinds on the copy
         yield case([new(LEAF, x=1), new(MID, leaf=R(H(0))), new(ROOT3, mid=R(H(1)))], H(2), mech,
                    [('new', new(LEAF, x=5)), ('copy', set_(CP('mid'), 'leaf', R(H(3)))), ('copy', set_(CP('mid', 'leaf'), 'x', 7)), ('orig', set_(H(0), 'x', 9)),
@@ -748,12 +754,10 @@ def _random_case(rng, mech):
                         else seladd(target_ref, 'named', rng.randint(1, 6)))
             k = rng.random()
             if k < 0.4:
-                # (a watcher is never registered twice on the same names: equal watcher objects are outside the model)
+                # (registering the same callback twice gives two watcher objects: both run, also in a batch)
                 ps = ints if (cls == SUB and rng.random() < 0.4) else [rng.choice(ints)]
-                if ps not in nd['watched']:
-                    nd['watched'].append(ps)
-                    return watch(target_ref, ps, target_ref)
-                return update(target_ref, **{p: rng.randint(0, 5) for p in free_ints}) if free_ints else mutattr_or_set(nd, target_ref)
+                nd['watched'].append(ps)
+                return watch(target_ref, ps, target_ref)
             if k < 0.7:
                 return watchp(target_ref, rng.choice(ints), target_ref)
             return watchs(target_ref, rng.choice(ints), target_ref)
@@ -777,12 +781,10 @@ def _random_case(rng, mech):
         op = one_op(H(h), nd, {}, [i for i in range(nsub)])
         if h == root:
             pass
-        elif op['op'] in ('watchPartial', 'watchSlot') and nd['cls'] == SUB and rng.random() < 0.5:
+        elif op['op'] in ('watch', 'watchPartial', 'watchSlot') and nd['cls'] == SUB and nsub == 2 and h < 2 and rng.random() < 0.35:
+            op = dict(op, target=H(1 - h))                           # an object of the SAME class watches this one
+        elif op['op'] in ('watch', 'watchPartial', 'watchSlot') and nd['cls'] == SUB and rng.random() < 0.5:
             op = dict(op, target=H(root))                            # the root watches a sub-object explicitly
-        elif op['op'] == 'watch' and nd['cls'] == SUB and rng.random() < 0.5 and ['root'] + op['ps'] not in nd['watched']:
-            nd['watched'].remove(op['ps'])
-            nd['watched'].append(['root'] + op['ps'])
-            op = dict(op, target=H(root))
         pre.append(op)
     # post histories
     import copy as _c
@@ -940,6 +942,11 @@ def tags(case, impl):
             t.append('pre:detached-again')
         if any(own for o in snap for _, own, _, _ in o.get('sel', [])):
             t.append('selector:own-copy-before-copy')
+        if any(ws.count(w) > 1 for o in snap for _, ws in o['watchers'] for w in ws):
+            t.append('pre:duplicate-watcher')
+        if any(w[1] in ('bound', 'partial') and w[0] != w[2] and snap[w[0]]['cls'] == snap[w[2]]['cls']
+               for o in snap for _, ws in o['watchers'] for w in ws if w[0] < len(snap) and w[2] < len(snap)):
+            t.append('pre:same-class-cross-watcher')
         if any(w[6] is not None for o in snap for _, ws in o['watchers'] for w in ws):
             t.append('pre:depth2-dependency-wired')
         if len(set(id(w) for o in snap for _, ws in o['watchers'] for w in ws)) >= 0 and any(
